@@ -506,6 +506,14 @@ pub fn check_main(engine: &dyn Engine, o: &CheckOptions) -> i32 {
         // replay files are outputs of a run: start from a clean slate
         let _ = std::fs::remove_dir_all(root.join("replays").join(&o.prop));
     }
+    // oracle self-tests: a reference model that fails them must not produce verdicts
+    let st = crate::engines::selftest_failures();
+    if !st.is_empty() {
+        for f in st.iter().take(5) {
+            println!("INCONCLUSIVE property={} reason=oracle self-test failed: {f}", o.prop);
+        }
+        return 2;
+    }
     let total = engine.total_cases(&o.prop, o.tier);
     let ncpu = std::thread::available_parallelism().map(|n| n.get()).unwrap_or(4);
     let nshards = std::env::var("KV_JOBS")
